@@ -107,6 +107,7 @@ type Exec struct {
 }
 
 func NewExec(cfg *Config) *Exec {
+	multiTokenRun = cfg.MultiToken
 	x := &Exec{cfg: cfg, memoCtx: map[string]string{}, memoReq: map[string]string{}, armed: map[string]bool{}, stats: newRunStats()}
 	n := cfg.Replicas
 	if n < 1 {
@@ -318,6 +319,22 @@ func (x *Exec) Apply(op *Op, opIndex int) bool {
 	case "expcont":
 		if !x.H().inBlock {
 			x.doExportContinue(op)
+		}
+	case "rate":
+		// the feed of the "oracle" module service moves between blocks (inside a block it is constant, so that a block
+		// replayed after a crash sees what the first execution saw)
+		if !x.H().inBlock && x.cfg.MultiToken {
+			for _, h := range x.hosts {
+				if op.Rate == "" {
+					delete(h.rates, op.Pair)
+				} else {
+					h.rates[op.Pair] = op.Rate
+				}
+			}
+			// the feed is harness-side state carried by every snapshot: refresh the current one
+			cp := *x.cur
+			cp.Rates = copyRates(x.H().rates)
+			x.cur = &cp
 		}
 	default:
 		panic("unknown op kind " + op.K)
